@@ -20,10 +20,13 @@ Families
                     time steps along a de Bruijn word over {None,0..T-1}: every pair (quick) or triple (thorough)
                     of consecutive requests, each value == the same request on a freshly bound object).  All buffers of all instruments of the world and all caller tensors
                     are snapshotted before/after each call; each call is made twice (same result).
-  histories         bfs over operation histories on one hedger (five variants) with three derivatives
-                    (different underlier types, path counts, dtypes, lengths); per transition the frame rule,
-                    the parameter frame and two differential oracles (fresh hedger on the live
-                    instruments; fresh hedger in the world of the data-changing operations only).
+  histories         bfs over operation histories on one hedger (six variants), optionally a copy.deepcopy of it, with
+                    three derivatives (different underlier types, path counts, dtypes, lengths; one hedged with a
+                    listed option on the same stock); operations simulate / compute_hedge / compute_pl /
+                    compute_loss (value and gradient) / price / fit / to / get_input / eval / train / deepcopy /
+                    evaluation by the copy; per transition the frame rule incl. autograd state, the parameter
+                    frame, no shared state between a hedger and its copy, and two differential oracles (fresh
+                    hedger on the live instruments; fresh hedger in the world of the data-changing operations only).
 """
 from __future__ import annotations
 
@@ -111,9 +114,14 @@ def _run_call(ctx, spec, block, dtype, form, zoo=None):
                           observed=None if after is None else W.describe(after[0]),
                           expected=None if before is None else W.describe(before[0]), block=mini)
             grad, version = W.flag_changes(s0, s1)
-            if grad:
-                ctx.add("requires_grad_set_on_buffer", len(grad))
-                ctx.add(f"requires_grad_set_on_buffer@{site}", len(grad))
+            for (i, name), st0, st1 in grad:
+                # the autograd state (requires_grad, is_leaf, grad_fn) of a series is observable state: later
+                # computations on it build graphs / return tensors that require grad
+                mutated = True
+                violation(site, f"autograd_state_changed:{name}",
+                          f"{label}: (requires_grad, is_leaf, grad_fn) of buffer '{name}' of instrument #{i} went "
+                          f"{st0} -> {st1} under {zoo.kind}/{zoo.dkind}, {block['dtype']}",
+                          observed=list(st1), expected=list(st0), block=mini)
             if version and not diffs:
                 ctx.add("value_preserving_inplace_writes_on_buffers", len(version))
             ctx.add("buffers_snapshotted", len(s0[0]))
@@ -123,8 +131,11 @@ def _run_call(ctx, spec, block, dtype, form, zoo=None):
             violation(site, f"mutates_argument:{name}:{kind}",
                       f"{label}: caller tensor '{name}' changed ({kind}), form={form}, {block['dtype']}",
                       observed=W.describe(c.t[name][1]), expected=W.describe(a0[name][0]), block=mini)
-        if flags:
-            ctx.add("requires_grad_set_on_caller_tensor", len(flags))
+        for name, st0, st1 in flags:
+            mutated = True
+            violation(site, f"autograd_state_changed:{name}",
+                      f"{label}: (requires_grad, is_leaf, grad_fn) of caller tensor '{name}' went {st0} -> {st1}, "
+                      f"form={form}, {block['dtype']}", observed=list(st1), expected=list(st0), block=mini)
         ctx.add("caller_tensors_snapshotted", len(a0))
         ctx.tick(1, nontrivial=1 if (not spec["nondet"] and W.depends_on_data(out1)) else 0)
         if expect is not None and not raised:
@@ -136,7 +147,7 @@ def _run_call(ctx, spec, block, dtype, form, zoo=None):
                     msg, obs, exp = msg + f"{key} after {list(want)[:list(want).index(key)][-3:]}", out1[key], want[key]
                 violation(site, prepared.get("expect_class", "differs_from_fresh"), f"{label}: {msg}",
                           observed=W.describe(obs), expected=W.describe(exp), block=mini)
-        if not mutated and not raised and not spec["nondet"]:
+        if not mutated and not raised and not spec["nondet"] and not prepared.get("no_repeat"):
             try:
                 out2 = thunk()
             except Exception as e:
@@ -594,13 +605,14 @@ def zoo_calls(z, seed, tier="quick"):
                 return {f"#{k} get({i})": fresh[i] for k, i in enumerate(seq)}
             return {"thunk": thunk, "expect": expect, "expect_class": "depends_on_access_order",
                     "expect_msg": "get(i) on one bound object depends on which time steps were requested before "
-                                  "(differs from a freshly bound object); first difference: ", "first_diff": True}
+                                  "(differs from a freshly bound object); first difference: ", "first_diff": True,
+                    "no_repeat": True}       # the word itself repeats every request in every context
         add(site, label, prep)
 
     for label, site, mk in feats:
         if label != "empty":
             order_spec(site, f"order:{label}", lambda mk=mk: mk().of(d))
-    for pname in ("buffer", "convex"):
+    for pname in (("buffer", "convex") if rich else ("buffer",)):
         order_spec("Spot.get", f"order:listed[{pname}].Spot", lambda: PF.Spot().of(d), listed_by=W.pricers(z)[pname])
         order_spec("Spot(log=True).get", f"order:listed[{pname}].Spot(log=True)", lambda: PF.Spot(log=True).of(d),
                    listed_by=W.pricers(z)[pname])
@@ -612,7 +624,7 @@ def zoo_calls(z, seed, tier="quick"):
                lambda: PF.ModuleOutput(torch.nn.Identity(), [PF.Barrier(z.K, up=True), PF.Barrier(z.K, up=False)]).of(d))
     # the same through a hedger: get_input(d, i) in every order, on one hedger (a ModuleOutput input binds in place
     # and so carries its bound features from call to call) vs a fresh hedger per request
-    for mv in ("linear", "modout", "mlp"):
+    for mv in (("linear", "modout", "mlp") if rich else ("modout",)):
         def prep_h(c, mv=mv):
             def hedger():
                 sis = list(_state_independent_inputs(z))
@@ -641,7 +653,7 @@ def zoo_calls(z, seed, tier="quick"):
             return {"thunk": thunk, "expect": expect, "expect_class": "depends_on_access_order",
                     "expect_msg": "get_input(d, i) on one hedger depends on which time steps were requested before "
                                   "(differs from a fresh hedger with the same parameters); first difference: ",
-                    "first_diff": True}
+                    "first_diff": True, "no_repeat": True}
         add("Hedger.get_input", f"order:Hedger[{mv}].get_input", prep_h)
     # -- binding independence ---------------------------------------------------------------------------------------------------------------
     for label, site, mk in feats:
@@ -758,6 +770,8 @@ def zoo_calls(z, seed, tier="quick"):
                 continue
             for meth in ("compute_loss", "price", "fit"):
                 if meth == "fit" and (cname not in ("EntropicRiskMeasure", "ExpectedShortfall") or not rich):
+                    continue
+                if meth == "fit" and tier == "quick" and (cname != "EntropicRiskMeasure" or hv != "default"):
                     continue
                 if meth == "price" and cname in DEFAULT_CASH and z.dtype != torch.float64:
                     continue
@@ -909,8 +923,12 @@ class _Observer:
             raise HarnessError(f"replaying {hist} twice gives different series")
         if isinstance(out_live, W.Raised):
             proj = W.build(self.variant, self.seed, W.data_projection(hist))
-            proj.adopt(W._Donor(after, state=after.pre_state))
-            ref = W.safe_apply(proj, op)
+            if op[0] == "chedge":
+                proj.adopt(W._Donor(after, state=after.pre_copy_state))
+                ref = W.safe_apply(proj, ("hedge", op[1]))
+            else:
+                proj.adopt(W._Donor(after, state=after.pre_state))
+                ref = W.safe_apply(proj, op) if op[0] != "copy" else None
             fresh_too = isinstance(ref, W.Raised)
             ctx.tick(1)
             ctx.violation(site, ("raises:" if fresh_too else "history_dependent:raises:") + str(out_live).split(":")[0],
@@ -929,6 +947,38 @@ class _Observer:
                           f"({W.DERIVS[i][0]}) changed ({kind}) [hedger variant {self.variant}]",
                           observed=W.describe(s1[0][(i, name)][0]) if (i, name) in s1[0] else None,
                           expected=W.describe(s0[0][(i, name)][0]) if (i, name) in s0[0] else None, block=blk)
+        for key, state in W.dirty_autograd(s1):
+            ctx.violation(site, f"autograd_state_changed:{key[1]}",
+                          f"history {_fmt(hist)} then {_fmt([op])}: series '{key[1]}' of derivative #{key[0]} now has "
+                          f"(requires_grad, is_leaf, grad_fn) = {state} [variant {self.variant}]",
+                          observed=list(state), expected=[False, True, False], block=blk)
+        # the two hedger objects (original and its deep copy) do not share state: operations on one leave the
+        # buffers (prev_output) and parameters of the other untouched
+        on_copy = op[0] == "chedge"
+        other, label = (0, "original hedger") if (on_copy or op[0] == "copy") else (1, "deep copy of the hedger")
+        for other, label in ([(0, "original hedger"), (1, "deep copy of the hedger")] if op[0] in ("sim", "dto")
+                             else [(other, label)]):
+            if not W.same_module_buffers(after.pre_hb[other], after.post_hb[other]):
+                ctx.violation(site, "clobbers_other_hedger" if not on_copy else "copied_hedger:clobbers_original",
+                              f"history {_fmt(hist)} then {_fmt([op])}: the buffers (prev_output) of the {label} changed "
+                              f"[variant {self.variant}]",
+                              observed={n: W.describe(v[0]) for n, v in (after.post_hb[other] or {}).items()},
+                              expected={n: W.describe(v[0]) for n, v in (after.pre_hb[other] or {}).items()}, block=blk)
+        if op[0] != "copy" and after.pre_copy_state is not None:
+            cs = after.copy_state()
+            for grp in after.pre_copy_state:
+                for k, v in after.pre_copy_state[grp].items():
+                    if not W.same_tensor(v, cs[grp][k]):
+                        ctx.violation(site, "parameters_changed:copy",
+                                      f"history {_fmt(hist)} then {_fmt([op])}: parameter {grp}.{k} of the deep copy changed",
+                                      observed=W.describe(cs[grp][k]), expected=W.describe(v), block=blk)
+        if op[0] == "copy":
+            cs, st = after.copy_state(), after.state()
+            same = sorted(cs) == sorted(st) and all(W.same_result(cs[g], st[g]) for g in st)
+            if not same or not _same_values(W.snap_module_buffers(after.copy), after.post_hb[0]):
+                ctx.violation(site, "copy_differs_from_original",
+                              f"history {_fmt(hist)} then copy.deepcopy(hedger): parameters/buffers of the copy differ "
+                              f"from the original's [variant {self.variant}]", block=blk)
         if allowed is not None:
             p = live.prims[allowed]
             if op[0] == "dto":
@@ -953,7 +1003,11 @@ class _Observer:
                         ctx.violation(site, "parameters_changed",
                                       f"history {_fmt(hist)} then {_fmt([op])}: parameter {grp}.{k} changed",
                                       observed=W.describe(st1[grp][k]), expected=W.describe(w), block=blk)
-        query = op[0] in ("hedge", "pl", "input", "loss", "price", "fit")
+        query = op[0] in ("hedge", "pl", "input", "loss", "price", "fit", "chedge")
+        # an evaluation of the deep copy is compared with the same evaluation by a fresh hedger holding the copy's parameters
+        ref_op = ("hedge", op[1]) if on_copy else op
+        donor_state = after.pre_copy_state if on_copy else after.pre_state
+        tag = "copied_hedger:" if on_copy else ""
         ctx.tick(1, nontrivial=1 if (query and W.depends_on_data(out_live)) else 0)
         ctx.add("traces_validated_against_impl", 1)
         if not query:
@@ -962,29 +1016,30 @@ class _Observer:
         # instruments.  It is run in the world of the live hedger right after its operation: by the frame rule
         # checked above the series are what they were before (a simulating operation re-delivers the same script),
         # the parameters handed over are the ones the live hedger had before the operation.
-        keep = (after.hedger, after.aux, after.last, after.post, after.failed, len(after.trace))
+        keep = (after.hedger, after.aux, after.last, after.post, after.failed, len(after.trace), after.access)
         after.hedger, after.aux = W.make_hedger(self.variant, after.derivs, self.seed)
-        after.adopt(W._Donor(after, state=after.pre_state))
-        ref_a = W.safe_apply(after, op)
+        after.adopt(W._Donor(after, state=donor_state))
+        ref_a = W.safe_apply(after, ref_op)
         after.hedger, after.aux, after.last, after.post, after.failed = keep[:5]
         del after.trace[keep[5]:]
+        after.access = keep[6]
         if not W.same_result(out_live, ref_a):
-            ctx.violation(site, "history_dependent:vs_fresh_hedger",
+            ctx.violation(site, tag + "history_dependent:vs_fresh_hedger",
                           f"after {_fmt(hist)} the result of {_fmt([op])} differs from a fresh hedger holding the same "
                           f"parameters on the same instruments [variant {self.variant}]",
                           observed=W.describe(out_live), expected=W.describe(ref_a), block=blk)
         # (3b) differential: fresh hedger in the world where only the data-changing operations happened
         # (the reference world is built from scratch from (projection, parameters, operation) only, so its result
         # is a function of that key and is computed once per key)
-        pkey = (tuple(W.data_projection(hist)), op, _fingerprint(after.pre_state))
+        pkey = (tuple(W.data_projection(hist)), ref_op, _fingerprint(donor_state))
         if pkey not in self.memo:
             proj = W.build(self.variant, self.seed, W.data_projection(hist))
-            proj.adopt(W._Donor(after, state=after.pre_state))
-            self.memo[pkey] = W.safe_apply(proj, op)
+            proj.adopt(W._Donor(after, state=donor_state))
+            self.memo[pkey] = W.safe_apply(proj, ref_op)
             ctx.add("reference_worlds_built", 1)
         ref_b = self.memo[pkey]
         if not W.same_result(out_live, ref_b):
-            ctx.violation(site, "history_dependent:vs_current_data",
+            ctx.violation(site, tag + "history_dependent:vs_current_data",
                           f"after {_fmt(hist)} the result of {_fmt([op])} differs from a fresh hedger with the same "
                           f"parameters on the derivative's current series (only simulate/to replayed: "
                           f"{_fmt(W.data_projection(hist))}) [variant {self.variant}]",
@@ -992,6 +1047,10 @@ class _Observer:
         ctx.add("differential_comparisons", 2)
         if isinstance(out_live, torch.Tensor) and out_live.numel():
             ctx.outcome((self.variant, op[0], round(float(out_live.detach().to(torch.float64).nan_to_num(nan=-1.0).sum()), 9)))
+
+
+def _same_values(a, b):
+    return sorted(a) == sorted(b) and all(W.same_tensor(a[n][0], b[n][0]) for n in a)
 
 
 def _fingerprint(state):
@@ -1070,9 +1129,9 @@ def run(ctx):
              "transitions with a data-dependent result")
     ctx.assume("abstract states merged by canon() have the same futures w.r.t. the property: control flow of pfhedge "
                "does not branch on series or parameter values, and both differential oracles copy the live values")
-    ctx.assume("a requires_grad flag switched on by autogreek on a caller tensor or on an instrument series changes no value: "
-               "it would be counted (requires_grad_set_on_caller_tensor / requires_grad_set_on_buffer@site), not reported; "
-               "fixed in /repo by 6febe5a - the counters are absent (0) on the current tree")
+    ctx.assume("the autograd state (requires_grad, is_leaf, grad_fn) of every instrument series and of every caller tensor is "
+               "part of the observable state: a query that changes it is a violation (class autograd_state_changed); the "
+               "former leak through autogreek was fixed in /repo by 6febe5a")
     ctx.assume("ModuleOutput.of rebinds in place by design (it returns self): holding a bound ModuleOutput across a "
                "rebinding is outside the property; the hedger rebinds before every use, which the histories exercise")
     ctx.assume("values of the 'empty' feature are uninitialised memory: only side effects are checked for it")
@@ -1094,8 +1153,7 @@ def run(ctx):
         for dk in market.ALL_DERIVATIVE_KINDS:
             dtypes = ["float64"]
             if ctx.thorough or (kind, dk) in (("brownian", "european"), ("heston", "lookback"), ("local_vol", "american_binary"),
-                                              ("cir", "variance_swap"), ("rough_bergomi", "forward_start"),
-                                              ("merton", "european_binary")):
+                                              ("cir", "variance_swap")):
                 dtypes.append("float32")
             i, j = W.PRIMARIES.index(kind), market.ALL_DERIVATIVE_KINDS.index(dk)
             rich = (i % 6 == j) or ((i + 3) % 6 == j)
@@ -1118,7 +1176,8 @@ def run(ctx):
     hblocks = []
     for variant in W.VARIANTS:
         hblocks.append({"variant": variant, "init": [list(o) for o in PRESIM], "depth": ctx.pick(3, 4), "ops": ctx.tier})
-        hblocks.append({"variant": variant, "init": [], "depth": ctx.pick(2, 4), "ops": ctx.tier})
+        hblocks.append({"variant": variant, "init": [], "depth": ctx.pick(1, 3), "ops": ctx.tier})
+    hblocks.sort(key=lambda b: -len(b["init"]))          # the deep explorations first (stable: variants stay simplest first)
     ctx.info["max_depth"] = ctx.pick(3, 4)
     if ctx.quick:
         for b in hblocks:
